@@ -34,7 +34,18 @@ impl Timestamp {
     let offset_date_time = OffsetDateTime::parse(input, &Rfc3339)
       .map_err(time::Error::from)
       .map_err(Error::InvalidTimestamp)?
-      .to_offset(UtcOffset::UTC);
+      .checked_to_offset(UtcOffset::UTC)
+      .ok_or(Error::InvalidTimestamp(time::error::Error::Format(
+        time::error::Format::InvalidComponent("invalid year"),
+      )))?;
+
+    // The local year is within 0000AD - 9999AD per Rfc3339, but normalizing to UTC can move the
+    // instant out of that range, see `from_unix`.
+    if !(0..10_000).contains(&offset_date_time.year()) {
+      return Err(Error::InvalidTimestamp(time::error::Error::Format(
+        time::error::Format::InvalidComponent("invalid year"),
+      )));
+    }
     Ok(Timestamp(truncate_fractional_seconds(offset_date_time)))
   }
 
